@@ -264,6 +264,9 @@ struct VResult {
   std::string msg;                 // why it failed
   std::string known;               // matcher name of a known-finding class
   std::vector<std::string> labels; // classification of this case
+  // true for failures observed on real, unsynchronised threads: the violation
+  // was seen, but re-running the case need not reproduce the interleaving
+  bool schedule_dependent = false;
   void fail(const std::string &m) {
     if (ok) {
       ok = false;
@@ -318,6 +321,7 @@ struct Stats {
   std::vector<std::string> first;                      // first 2 cases
   std::vector<std::pair<uint64_t, std::string>> keep;  // 3 smallest hashes
   bool failed = false;
+  bool fail_sched = false;
   std::string fail_msg, fail_file;
   std::vector<std::string> starved;
   double wall = 0;
@@ -487,6 +491,7 @@ inline int vmain(int argc, char **argv, const std::string &property_id,
         shrinking = true;
         lastfail = c;
         lastmsg = r.msg;
+        st.fail_sched = r.schedule_dependent;
         RC_FAIL(r.msg);
       }
     }, metadata, params);
@@ -553,7 +558,8 @@ inline int vmain(int argc, char **argv, const std::string &property_id,
         << ",\"distinct_nontrivial\":" << st.distinct.size()
         << ",\"known_excluded\":" << st.known_excluded
         << ",\"wall_s\":" << st.wall << ",\"failed\":"
-        << (st.failed ? "true" : "false") << ",\"fail_msg\":" << jstr(st.fail_msg)
+        << (st.failed ? "true" : "false") << ",\"schedule_dependent\":"
+        << (st.fail_sched ? "true" : "false") << ",\"fail_msg\":" << jstr(st.fail_msg)
         << ",\"fail_file\":" << jstr(st.fail_file) << ",\"rule\":" << jstr(p.rule)
         << ",\"labels\":{";
       bool fl = true;
